@@ -10,6 +10,7 @@
  * Behaviour is driven by files in $BVMON_CTL:
  *   fail_nth     integer k: the k-th logged invocation exits 1
  *   fail_match   lines; an invocation whose "name arg1 arg2 ..." starts with a line exits 1
+ *   hook_noise   integer N: a hook executable writes N bytes to stderr (and a few lines to stdout) before exiting
  *   fetched      marker written by a successful fetch/pull; then out/<key>.after_fetch replaces out/<key>
  *   out/<key>    canned stdout for read-only queries (key: status, tag-list, tag-merged,
  *                branch, remote, fetch, rev-parse, root)
@@ -156,6 +157,23 @@ int main(int argc, char **argv) {
         else if (!strcmp(a1, "root")) key = "root";
     }
     int exitcode = fail ? 1 : 0;
+    if (is_hook && ctl) {
+        /* hook_noise: N -> the hook writes N bytes (lines of 64) to stderr and 3 lines to stdout before it exits */
+        size_t n = 0;
+        snprintf(path, sizeof path, "%s/hook_noise", ctl);
+        unsigned char *d = slurp(path, &n);
+        if (d) {
+            d = realloc(d, n + 1); d[n] = 0;
+            long want = atol((char *)d);
+            free(d);
+            char line[65];
+            memset(line, 'x', 63); line[63] = '\n'; line[64] = 0;
+            fputs("hook: start\n", stdout); fflush(stdout);
+            for (long w = 0; w < want; w += 64) { fputs(line, stderr); }
+            fflush(stderr);
+            fputs("hook: middle\nhook: done\n", stdout); fflush(stdout);
+        }
+    }
     if (!fail && key && ctl) {
         size_t n = 0;
         /* a successful fetch/pull leaves a marker; afterwards out/<key>.after_fetch (if present) replaces out/<key> */
